@@ -61,7 +61,8 @@ func genFieldName(t *rt.Tape, used map[string]bool) string {
 	}
 }
 
-var valueAtoms = []string{"foo", "bar (>= 1.0)", "a:b", "#notacomment", "x,y", "1.0-1", "é", "日本語", "http://example.org/?q=1#frag", "<a@b.c>", "-dash", "- -", ".", "..", "tab\there", "=", "k: v"}
+// ("città", "Å", "丠" end in the bytes 0xA0 / 0x85, which are white space only as code points)
+var valueAtoms = []string{"foo", "bar (>= 1.0)", "a:b", "#notacomment", "x,y", "1.0-1", "é", "日本語", "città", "Å", "丠", "http://example.org/?q=1#frag", "<a@b.c>", "-dash", "- -", ".", "..", "tab\there", "=", "k: v"}
 
 func genValueText(t *rt.Tape, label string, dash bool) string {
 	n := t.Range(1, 4, label+".n")
